@@ -67,9 +67,34 @@ pub fn dec_case(ctx: &mut Ctx, ls: &Layouts, compressed: bool, frame: &[u8]) -> 
     d
 }
 
+/// a packet built with `text` in one of its text fields, encoded and decoded, holds that text again
+pub fn typed_text_case(ctx: &mut Ctx, ls: &Layouts, compressed: bool, kind: &str, path: &str, t: &str) {
+    let build = match crate::c11::text_builders().into_iter().find(|(k, p, _)| *k == kind && *p == path) { Some((_, _, b)) => b, None => return };
+    let (_, n, raw, _, _) = match crate::c11::locate(ls, kind, path) { Some(x) => x, None => return };
+    let wire_len = if raw { t.len() } else { insim_core::string::codepages::to_lossy_bytes(t).len() };
+    if wire_len > n { return; }
+    ctx.oracle_eval("typed-text");
+    let op = format!("txt.rt {} {}.{} {}", if compressed { "c" } else { "u" }, kind, path, crate::text::cps(t));
+    let p = build(t.to_string());
+    let f = match real_encode(compressed, &p) { Some(Ok(f)) => f, _ => return };
+    match real_decode(compressed, &f) {
+        Dec::Pkt(p2, _) => {
+            let v = serde_json::to_value(&p2).unwrap();
+            let field = path.split('.').fold(Some(&v), |cur, part| cur.and_then(|c| if c.is_array() { c.get(0).and_then(|x| x.get(part)) } else { c.get(part) }));
+            let got = field.and_then(|x| x.as_str()).map(|x| x.to_string());
+            if got.as_deref() != Some(t) {
+                ctx.violation(&format!("c01/text-roundtrip/{}.{}", kind, path), "a packet built with this text, encoded and decoded, does not hold the text again", &op, &crate::text::cps(t), &format!("{:?} via {}", got.map(|g| crate::text::cps(&g)), hex(&f)));
+            }
+        },
+        Dec::Panic => ctx.violation(&format!("c01/decode-abort/{}", kind), "decoding the encoder's own frame aborted", &op, "a packet", &hex(&f)),
+        _ => ctx.violation(&format!("c01/encode-decode/{}/undecodable", kind), "the encoder's own frame does not decode", &op, "a packet", &hex(&f)),
+    }
+}
+
 pub fn replay(ctx: &mut Ctx, ls: &Layouts, l: &str) -> bool {
     let w: Vec<&str> = l.split_whitespace().collect();
     match w.as_slice() {
+        ["txt.rt", m, kp, t] => { let (k, p) = kp.split_once('.').unwrap_or((kp, "")); typed_text_case(ctx, ls, *m == "c", k, p, &crate::text::from_cps(t)); true },
         ["pkt.rt", m, h] => { rt_case(ctx, ls, *m == "c", &unhex(h), true); true },
         ["pkt.dec", m, h] => { let _ = dec_case(ctx, ls, *m == "c", &unhex(h)); true },
         _ => false,
@@ -155,6 +180,14 @@ pub fn run(ctx: &mut Ctx) {
                 off += w + f["ra"].as_u64().unwrap_or(0) as usize;
             }
             ctx.count(&format!("kind {} swept", kind));
+        }
+    }
+    // typed values, not frames: a packet built with a given text in each of its text fields, encoded and decoded, holds that
+    // text again (texts chosen to fit the narrowest field after encoding and to avoid C10's recorded exceptions)
+    {
+        let texts = ["abc", "a\u{448}\u{44e}", "\u{e9}\u{448}", "1\u{7f8e}", "X\u{3ce}", "\u{11b}\u{161}", "\u{448}a", "a b", "\u{e9}", "\u{20ac}\u{448}", "x^1y", "\u{ff}\u{fe}", "Z\u{11b}"];
+        for (kind, path, _) in crate::c11::text_builders() {
+            for t in texts { for compressed in [true, false] { typed_text_case(ctx, &ls, compressed, kind, path, t); } }
         }
     }
     // frames that are canonical by construction (built from the specification table by C02's reference codec)
